@@ -9,7 +9,7 @@ import re
 
 from .. import hirq, mirg, rules
 from ..mirg import plocal, pproj, op_local
-from ..rules import ncallee
+from ..rules import ncallee, norm
 
 META = {
     "level": "other",
@@ -277,3 +277,53 @@ def run(ctx):
                     "the file becomes unreachable under its real name after compaction")
         if nskip == 0:
             ctx.bad(R_compact, "compact|no-skip-sites", cp.where, "no skip condition recognised in compact", "shape changed")
+
+    # insertion into an existing archive's table reuses tombstones: a slot is free when it is never-used OR deleted
+    R_reuse = ctx.rule("C06.insertion-reuses-deleted-slots", "MutableArchive::add_to_hash_table accepts a slot exactly when it is never-used or deleted (truth table over the three kinds of entry)", floor=1)
+    from .c02 import make_entry_state_table
+    est = make_entry_state_table(mpq)
+    ins = next((f for f in mpq.fn_list if f.hir and f.kind != "Closure" and norm(f.path) == "wow_mpq::modification::MutableArchive::add_to_hash_table"), None)
+    if ins is None:
+        ctx.bad(R_reuse, "add_to_hash_table|missing", "-", "function not found", "anchor gone")
+    else:
+        ctx.saw_fn(ins)
+        hit = False
+        for lp in hirq.find(ins.hir["body"], "loop"):
+            for n in hirq.find(lp["body"], "if"):
+                writes = any(x.get("k") == "assign" and hirq.strip(x["l"]).get("k") == "un" for x in hirq.walk(n["then"])) or any(x.get("k") == "struct" and x["res"].get("def", "").endswith("HashEntry") for x in hirq.walk(n["then"]))
+                if not writes:
+                    continue
+                tab = est(n["c"])
+                if tab is None:
+                    continue
+                hit = True
+                if tab == {"occupied": False, "deleted": True, "never-used": True}:
+                    ctx.ok(R_reuse, {"cond": hirq.render(n["c"])[:70], "table": tab})
+                else:
+                    ctx.bad(R_reuse, "add_to_hash_table|free-slot-test", "%s:%d" % (ins.file, n["ln"]), "a slot is taken when `%s`: %s" % (hirq.render(n["c"])[:70], tab),
+                            "every remove/rename/replace leaves a deleted marker; if insertion does not reuse them the never-used slots run out after a bounded number of operations and add/rename/replace fail with 'hash table full' on a nearly empty table — after the old entry was already released")
+        if not hit:
+            ctx.bad(R_reuse, "add_to_hash_table|shape", ins.where, "no slot-acceptance test on the entry's state recognised", "shape changed")
+
+    # positions are kept in one frame: absolute (container file) and archive-relative offsets are never mixed
+    R_frame = ctx.rule("C06.positions-in-one-frame", "in the archive reader / in-place modifier no max/min/comparison/assignment mixes an absolute file position with an archive-relative one, and no seek targets a relative one", floor=100)
+    from .. import frames
+    n_chk = 0
+    for f in mpq.fn_list:
+        if f.kind == "Closure" or not f.hir or "::tests::" in f.path or "::debug::" in f.path or not re.search(r"wow_mpq::(archive|modification|patch_chain|rebuild)::", f.path):
+            continue
+        try:
+            fr = frames.Frames(mpq, f).run()
+        except RecursionError:
+            continue
+        n_chk += fr.checked
+        seen_ = set()
+        for ln, what in fr.clashes:
+            if what in seen_:
+                continue
+            seen_.add(what)
+            ctx.saw_fn(f)
+            ctx.bad(R_frame, "%s|frame|%s" % (norm(f.path), re.sub(r"[^a-z_]+", "_", what.split(":")[0])[:40]), "%s:%s" % (f.file, ln or f.lo), what,
+                    "harmless only while the archive starts at offset 0 of its file: for an embedded / prefixed archive the position computed here is off by the archive offset (new data written over the tables, wrong block read, wrong key)")
+    ctx.rules[R_frame]["obligations"] += n_chk
+    ctx.rules[R_frame]["discharged"] += n_chk
